@@ -111,6 +111,8 @@ fn build(picks: &[P], b: &mut B, depth: usize, xf: &dyn Fn(BBox) -> BBox) -> Vec
                     0 => format!("M{} {} L{} {} L{} {} Z", num(x), num(y), num(x + w), num(y + p.n[5]), num(x + p.n[4]), num(y + h)),
                     1 => format!("M {} {} h {} v {} H {} z", num(x), num(y), num(w), num(h), num(x + p.n[4])),
                     2 => format!("M {} {} l {} {} l {} {} V {}", num(x), num(y), num(w), num(p.n[5]), num(p.n[4]), num(h), num(y - 1.0)),
+                    3 => format!("M{} {} h{} M{} {} h{} v{} z l{} {}", num(x), num(y), num(w), num(x + p.n[4]), num(y + p.n[5]), num(w), num(h), num(-w / 2.0), num(h + 3.0)),
+                    4 => format!("M{} {} {} {} m{} {} {} 0 z l{} {} Z", num(x), num(y), num(x + w), num(y), num(p.n[4]), num(p.n[5]), num(w), num(-w), num(h)),
                     _ => format!("m {} {} {} {} {} {}", num(x), num(y), num(w), num(h), num(p.n[4]), num(p.n[5])),
                 };
                 out.push(XEl::new("path").a("id", id).a("d", d));
@@ -135,6 +137,19 @@ fn build(picks: &[P], b: &mut B, depth: usize, xf: &dyn Fn(BBox) -> BBox) -> Vec
                 // content of defs / specs / symbol adds nothing
                 let inner = XEl::new("rect").a("id", format!("d{id}")).a("xy", format!("{} {}", num(x * 9.0), num(y * 9.0))).a("wh", "500 400");
                 match p.f % 3 {
+                    0 if p.f & 0x40 != 0 && !b.use_targets.is_empty() => {
+                        // a link in a chain of uses: refers to an earlier target and adds an offset of its own
+                        let prev = b.use_targets[p.r as usize % b.use_targets.len()].clone();
+                        let mut u = XEl::new("use").a("id", format!("d{id}")).a("href", format!("#{prev}"));
+                        if p.f & 0x80 != 0 {
+                            u.set("x", num(p.n[4]));
+                        }
+                        if p.f & 0x100 != 0 {
+                            u.set("y", num(p.n[5]));
+                        }
+                        b.defs.push(u);
+                        b.use_targets.push(format!("d{id}"));
+                    }
                     0 => {
                         b.use_targets.push(format!("d{id}"));
                         b.defs.push(XEl::new("rect").a("id", format!("d{id}")).a("xy", format!("{} {}", num(p.n[4]), num(p.n[5]))).a("wh", format!("{} {}", num(w), num(h))));
@@ -316,6 +331,8 @@ fn path_box(d: &str) -> Option<BBox> {
     let mut start: Option<(f64, f64)> = None;
     let mut bb: Option<BBox> = None;
     let mut first = true;
+    // the coordinate pair that follows a moveto letter starts a new subpath (closepath returns there)
+    let mut fresh = true;
     let add = |x: f64, y: f64, bb: &mut Option<BBox>| {
         let p = BBox::new(x, y, x, y);
         *bb = Some(bb.map(|b| b.union(&p)).unwrap_or(p));
@@ -324,6 +341,7 @@ fn path_box(d: &str) -> Option<BBox> {
         let t = &toks[i];
         if t.len() == 1 && t.chars().next().unwrap().is_ascii_alphabetic() {
             cmd = t.chars().next().unwrap();
+            fresh = true;
             i += 1;
             if cmd == 'Z' || cmd == 'z' {
                 if let Some((sx, sy)) = start {
@@ -370,9 +388,10 @@ fn path_box(d: &str) -> Option<BBox> {
             _ => return None,
         }
         first = false;
-        if start.is_none() {
+        if start.is_none() || (fresh && matches!(cmd, 'M' | 'm')) {
             start = Some((x, y));
         }
+        fresh = false;
         add(x, y, &mut bb);
     }
     bb
